@@ -43,32 +43,7 @@ func runC06(c *eng.Ctx) {
 			handlers = append(handlers, fn)
 		}
 	}
-	// R6 (who may emit): the one-emission-per-visited-path argument of R1/R2
-	// covers the plan only if nothing else adds to it — every write of the
-	// reconciler's result lists sits in reconcile or one of the handlers (a pass
-	// that edits the lists afterwards can pair a change with a conflict at the
-	// same path).
-	allowed := map[*ssa.Function]bool{rec: true}
-	for _, h := range handlers {
-		for _, f := range eng.WithClosures(h) {
-			allowed[f] = true
-		}
-	}
-	nEmit := 0
-	for _, list := range []string{"ancestorChanges", "alphaChanges", "betaChanges", "conflicts"} {
-		fld, err := c.P.Field(corePkg, "reconciler", list)
-		if err != nil {
-			c.Problem("R6", "%v", err)
-			continue
-		}
-		for _, st := range eng.StoresToField(c.P.ModuleFuncs(), fld) {
-			nEmit++
-			c.Check("R6", "emitter:"+list+"@"+eng.FuncName(st.Fn), st.Store.Pos(), allowed[st.Fn], "the plan's lists are written only by reconcile and the disagreement handlers", eng.FuncName(st.Fn))
-		}
-	}
-	if nEmit < 8 {
-		c.Problem("R6", "expected ≥8 writes of the reconciler's result lists, found %d", nEmit)
-	}
+	c06WhoMayEmit(c, "R6", rec, handlers)
 	// R1: no handler calls reconcile (directly or via closures).
 	for _, h := range handlers {
 		calls := false
@@ -301,4 +276,39 @@ func c06FreshList(v ssa.Value, depth int) (bool, string) {
 		return true, ""
 	}
 	return false, eng.Render(v)
+}
+
+// c06WhoMayEmit (C06.R6, shared with C01 as R10): every write of the reconciler's
+// result lists sits in reconcile or one of the disagreement handlers. For C01
+// the reason is that R1–R9 analyse the emissions of those functions only: a
+// deletion or replacement emitted anywhere else (a fast path in front of the
+// mode switch, a post-pass) is planned without the safe-mode acceptance
+// conditions having been applied to it.
+func c06WhoMayEmit(c *eng.Ctx, rule string, rec *ssa.Function, handlers []*ssa.Function) {
+	// R6 (who may emit): the one-emission-per-visited-path argument of R1/R2
+	// covers the plan only if nothing else adds to it — every write of the
+	// reconciler's result lists sits in reconcile or one of the handlers (a pass
+	// that edits the lists afterwards can pair a change with a conflict at the
+	// same path).
+	allowed := map[*ssa.Function]bool{rec: true}
+	for _, h := range handlers {
+		for _, f := range eng.WithClosures(h) {
+			allowed[f] = true
+		}
+	}
+	nEmit := 0
+	for _, list := range []string{"ancestorChanges", "alphaChanges", "betaChanges", "conflicts"} {
+		fld, err := c.P.Field(corePkg, "reconciler", list)
+		if err != nil {
+			c.Problem(rule, "%v", err)
+			continue
+		}
+		for _, st := range eng.StoresToField(c.P.ModuleFuncs(), fld) {
+			nEmit++
+			c.Check(rule, "emitter:"+list+"@"+eng.FuncName(st.Fn), st.Store.Pos(), allowed[st.Fn], "the plan's lists are written only by reconcile and the disagreement handlers", eng.FuncName(st.Fn))
+		}
+	}
+	if nEmit < 8 {
+		c.Problem(rule, "expected ≥8 writes of the reconciler's result lists, found %d", nEmit)
+	}
 }
